@@ -216,7 +216,8 @@ func (s *ReverseSuffixSetSearcher) FindAt(haystack []byte, at int) *Match {
 		// Use reverse DFA with anti-quadratic guard to find match start
 		matchStart := s.reverseDFA.SearchReverseLimited(revCache, haystack, at, suffixEnd, minStart)
 		if matchStart >= 0 {
-			return NewMatch(matchStart, suffixEnd, haystack)
+			mStart, mEnd := s.matchFrom(haystack, matchStart, suffixEnd)
+			return NewMatch(mStart, mEnd, haystack)
 		}
 		if matchStart == lazy.SearchReverseLimitedQuadratic {
 			// Quadratic behavior detected - fall back to PikeVM
@@ -237,6 +238,17 @@ func (s *ReverseSuffixSetSearcher) FindAt(haystack []byte, at int) *Match {
 			return nil
 		}
 	}
+}
+
+// matchFrom returns the leftmost-first match that starts at matchStart. The reverse
+// scan from the first verified suffix fixes the start of the match; its end is the
+// one the pattern prefers from there, which lies beyond that suffix when a greedy
+// prefix can swallow it and a later suffix follows (`.+(?:aaa|abb)` on "xaaaaaa").
+func (s *ReverseSuffixSetSearcher) matchFrom(haystack []byte, matchStart, suffixEnd int) (start, end int) {
+	if st, en, ok := s.pikevm.SearchAt(haystack, matchStart); ok && st == matchStart {
+		return st, en
+	}
+	return matchStart, suffixEnd
 }
 
 // FindIndicesAt returns match indices - zero allocation version.
@@ -321,7 +333,8 @@ func (s *ReverseSuffixSetSearcher) findIndicesAtImpl(haystack []byte, at int, re
 		// Use reverse DFA with anti-quadratic guard to find match start
 		matchStart := s.reverseDFA.SearchReverseLimited(revCache, haystack, at, suffixEnd, minStart)
 		if matchStart >= 0 {
-			return matchStart, suffixEnd, true
+			mStart, mEnd := s.matchFrom(haystack, matchStart, suffixEnd)
+			return mStart, mEnd, true
 		}
 		if matchStart == lazy.SearchReverseLimitedQuadratic {
 			// Quadratic behavior detected - fall back to PikeVM
